@@ -20,6 +20,9 @@ type Node struct {
 	Step     int64   `json:"step,omitempty"`
 	DurNs    int64   `json:"dur_ns,omitempty"`
 	Children []Node  `json:"children,omitempty"`
+	// OmitTo (istep with To == 0 only): ConfigMap leaves the `to` key out, as a
+	// user who wants "just `from` instances" would; the decoded value is 0 too.
+	OmitTo bool `json:"omit_to,omitempty"`
 }
 
 // Leaf is one flattened elementary part.
@@ -72,6 +75,9 @@ func ConfigMap(n Node) any {
 	case "step":
 		return map[string]any{"type": "step", "from": n.From, "to": n.To, "step": n.Step, "duration": dur}
 	case "istep":
+		if n.OmitTo && int64(n.To) == 0 {
+			return map[string]any{"type": "instance_step", "from": int64(n.From), "step": n.Step, "stepduration": dur}
+		}
 		return map[string]any{"type": "instance_step", "from": int64(n.From), "to": int64(n.To), "step": n.Step, "stepduration": dur}
 	case "unlimited":
 		return map[string]any{"type": "unlimited", "duration": dur}
@@ -206,6 +212,12 @@ type Opts struct {
 	MaxDur      time.Duration // finite leaf duration bound
 	MinDur      time.Duration
 	Flat        bool // no leaf that is itself a composite (step, instance_step, empty composite)
+	// IStepToBelowFrom also draws instance_step leaves whose `to` lies below
+	// `from` (`to` omitted = 0, or copied smaller than `from`): config validation
+	// only asks for to >= 0, and no step fits, so the profile is `from` tokens at
+	// once and finishes at its own start. Off by default (draw sequence of the
+	// other generators is unchanged); ignored with Flat.
+	IStepToBelowFrom bool
 }
 
 func genDur(t *rapid.T, o Opts, label string) int64 {
@@ -227,6 +239,9 @@ func GenLeaf(t *rapid.T, o Opts) Node {
 	}
 	if o.Unlimited {
 		kinds = append(kinds, "unlimited", "unlimited")
+	}
+	if o.IStepToBelowFrom && !o.Flat {
+		kinds = append(kinds, "istep_below")
 	}
 	k := rapid.SampledFrom(kinds).Draw(t, "leafKind")
 	maxTok := o.MaxLeafTok
@@ -280,8 +295,41 @@ func GenLeaf(t *rapid.T, o Opts) Node {
 		return Node{Kind: "istep", From: float64(from), To: float64(to), Step: step, DurNs: genDur(t, o, "dur")}
 	case "unlimited":
 		return Node{Kind: "unlimited", DurNs: genDur(t, o, "dur")}
+	case "istep_below":
+		return GenIStepToBelowFrom(t, o)
 	}
 	panic("unreachable")
+}
+
+// GenIStepToBelowFrom draws an instance_step leaf with 0 <= to < from: `to`
+// omitted (0), anywhere below `from`, or less than one step below it.
+func GenIStepToBelowFrom(t *rapid.T, o Opts) Node {
+	maxTok := o.MaxLeafTok
+	if maxTok < 1 {
+		maxTok = 1
+	}
+	from := int64(rapid.IntRange(1, maxTok).Draw(t, "from"))
+	step := int64(rapid.IntRange(1, 4).Draw(t, "step"))
+	n := Node{Kind: "istep", From: float64(from), Step: step, DurNs: genDur(t, o, "dur")}
+	switch rapid.IntRange(0, 3).Draw(t, "toKind") {
+	case 0:
+		n.OmitTo = true // to == 0
+	case 1: // to == 0 spelled out
+	case 2:
+		n.To = float64(rapid.Int64Range(0, from-1).Draw(t, "to"))
+	default: // less than one step below (when from allows)
+		lo := from - step + 1
+		if lo < 0 || lo > from-1 { // step == 1: nothing is "less than a step below"
+			lo = 0
+		}
+		n.To = float64(rapid.Int64Range(lo, from-1).Draw(t, "to"))
+	}
+	return n
+}
+
+// IStepToBelowFrom reports whether n is an instance_step node with to < from.
+func IStepToBelowFrom(n Node) bool {
+	return n.Kind == "istep" && int64(n.To) < int64(n.From)
 }
 
 // stepDur picks a duration so that the top level yields at most maxTok tokens.
